@@ -744,7 +744,7 @@ func Check() *engine.Check {
 	return &engine.Check{
 		ID:    "C17",
 		Level: "model_checking",
-		Rule: "(A) explicit-state BFS over histories of derive(override) / exec(object, probe) for 21 kinds (all 19 mechanism types; jwt and " +
+		Rule: "(A) explicit-state BFS over histories of derive(override) / exec(object, probe) for 22 kinds (all 19 mechanism types; jwt and " +
 			"oauth2_introspection authenticators with a directly configured endpoint and with a metadata endpoint, plus a control whose metadata " +
 			"endpoint has every default configured): the prototype comes from a catalogue configuration through the production mechanism " +
 			"factory (hx.RealFactory -> mechanisms.NewMechanismFactory), variants from factory.Create*(id, override). Override menu per kind: the " +
